@@ -246,7 +246,8 @@ def main(tier_: str) -> int:
                         rp = c.get(path_of(pd['patch_location']))
                         r2 = c.get(url)
                         if rp.status_code != 200 or r2.status_code != 200:
-                            lines.append({'ev': 'patch_refused', 'url': pd['patch_location'], 'status': rp.status_code, 'chain': chain,
+                            lines.append({'ev': 'patch_refused', 'url': url, 'patch_url': pd['patch_location'], 'status': rp.status_code, 'chain': chain,
+                                          'full_status': r2.status_code, 't1': ta.isoformat(), 't2': tb.isoformat(),
                                           'exc': da.exceptions[-1] if da.exceptions else {}})
                             break
                         patched, info = apply_patch(doc, rp.data)
